@@ -5,26 +5,56 @@ import Sigc.SlotGLemmasXchg
 -/
 namespace Sigc.SlotG
 
+/-! ### at operation boundaries every representation is stored: the connection clauses at full strength -/
+
+theorem WF.connReg' {s : State} (hw : WF s) {c v : Nat} (hc : s.conns c = some (some v)) :
+    ∃ r R, repOf s v = some r ∧ s.reps r = some R ∧ c ∈ R.cbs := by
+  obtain ⟨r, R, hR, hm, hor⟩ := hw.inv.connReg c v hc
+  rcases hor with hor | hor
+  · exact ⟨r, R, hor, hR, hm⟩
+  · obtain ⟨w, hw'⟩ := hw.held r R hR; exact absurd hw' (hor w)
+
+theorem WF.cbsConn' {s : State} (hw : WF s) {r : Nat} {R : Rep} {c : Nat} (hR : s.reps r = some R)
+    (hm : c ∈ R.cbs) : ∃ v, s.conns c = some (some v) ∧ repOf s v = some r := by
+  obtain ⟨v, hv, hor⟩ := hw.inv.cbsConn r R c hR hm
+  rcases hor with hor | hor
+  · exact ⟨v, hv, hor⟩
+  · obtain ⟨w, hw'⟩ := hw.held r R hR; exact absurd hw' (hor w)
+
+theorem WF.invS {s : State} (hw : WF s) : InvS s where
+  repAlive := hw.inv.repAlive
+  repUniq := hw.inv.repUniq
+  connReg := fun _ _ hc => hw.connReg' hc
+  cbsConn := fun _ _ _ hR hm => hw.cbsConn' hR hm
+  cbsNodup := hw.inv.cbsNodup
+  parentOk := hw.inv.parentOk
+  trkReg := hw.inv.trkReg
+  trkEnt := hw.inv.trkEnt
+  trkNodup := hw.inv.trkNodup
+  refOk := hw.inv.refOk
+  ownOk := hw.inv.ownOk
+  repBound := hw.inv.repBound
+
 /-! ### small updates -/
 
 theorem wf_modSlot_blocked {s : State} (hw : WF s) (v : Nat) (b : Bool) :
     WF (s.modSlot v fun V => { V with blocked := b }) := by
-  have h := hw.inv
-  refine ⟨by inv_auto h, ?_, ?_⟩
+  have h := hw.invS
+  refine ⟨InvS.inv (by invs_auto h), ?_, ?_⟩
   · have := hw.idle; unfold Idle at *; st_simp; exact this
   · have := hw.held; unfold Held at *; st_simp; exact this
 
 theorem wf_newT {s : State} (hw : WF s) {t : Nat} (hd : s.trks t = none) :
     WF (s.setTrk t (some ⟨[], false⟩)) := by
-  have h := hw.inv
-  refine ⟨by inv_auto h, ?_, ?_⟩
+  have h := hw.invS
+  refine ⟨InvS.inv (by invs_auto h), ?_, ?_⟩
   · have := hw.idle; unfold Idle at *; st_simp; grind
   · have := hw.held; unfold Held at *; st_simp; exact this
 
 theorem wf_mkS0 {s : State} (hw : WF s) {v : Nat} (hd : s.slots v = none) :
     WF (s.setSlot v (some ⟨none, false⟩)) := by
-  have h := hw.inv
-  refine ⟨by inv_auto h with [repOf_eq], ?_, ?_⟩
+  have h := hw.invS
+  refine ⟨InvS.inv (by invs_auto h with [repOf_eq]), ?_, ?_⟩
   · have := hw.idle; unfold Idle at *; st_simp; exact this
   · have := hw.held; unfold Held at *; st_simp; grind [repOf_eq]
 
@@ -40,7 +70,7 @@ theorem slotRemCb_eq (v c : Nat) (s : State) : slotRemCb v c s =
     | some r => s.modRep r fun R => { R with cbs := R.cbs.erase c } := rfl
 
 /-- a connection that points nowhere is registered nowhere -/
-theorem not_registered {s : State} (h : Inv s) {c : Nat} (hc : ∀ v, s.conns c ≠ some (some v)) :
+theorem not_registered {s : State} (h : InvS s) {c : Nat} (hc : ∀ v, s.conns c ≠ some (some v)) :
     ∀ r R, s.reps r = some R → c ∉ R.cbs := by
   intro r R hR hm
   obtain ⟨v, hv, -⟩ := h.cbsConn r R c hR hm
@@ -50,20 +80,20 @@ theorem not_registered {s : State} (h : Inv s) {c : Nat} (hc : ∀ v, s.conns c 
     `v` and register it on `v`'s representation -/
 theorem wf_attach {s : State} (hw : WF s) {c v : Nat} (hc : ∀ w, s.conns c ≠ some (some w))
     (hv : ∃ r, repOf s v = some r) : WF (slotAddCb v c (s.setConn c (some (some v)))) := by
-  have h := hw.inv
+  have h := hw.invS
   have hnr := not_registered h hc
   obtain ⟨r, hr⟩ := hv
   rw [slotAddCb_eq, repOf_setConn, hr]
   simp only []
-  refine ⟨by inv_auto h, ?_, ?_⟩
+  refine ⟨InvS.inv (by invs_auto h), ?_, ?_⟩
   · have := hw.idle; unfold Idle at *; st_simp; exact this
   · have := hw.held; unfold Held at *; st_simp; grind
 
 theorem wf_setConn_none {s : State} (hw : WF s) {c : Nat} (hc : ∀ w, s.conns c ≠ some (some w))
     (o : Option (Option Nat)) (ho : o = none ∨ o = some none) : WF (s.setConn c o) := by
-  have h := hw.inv
+  have h := hw.invS
   have hnr := not_registered h hc
-  refine ⟨by rcases ho with rfl | rfl <;> inv_auto h, ?_, ?_⟩
+  refine ⟨InvS.inv (by rcases ho with rfl | rfl <;> invs_auto h), ?_, ?_⟩
   · have := hw.idle; unfold Idle at *; st_simp; exact this
   · have := hw.held; unfold Held at *; st_simp; exact this
 
@@ -71,11 +101,11 @@ theorem wf_setConn_none {s : State} (hw : WF s) {c : Nat} (hc : ∀ w, s.conns c
 theorem wf_detach {s : State} (hw : WF s) {c v : Nat} (hc : s.conns c = some (some v)) :
     WF ((slotRemCb v c s).setConn c (some none)) ∧
       ∀ w, ((slotRemCb v c s).setConn c (some none)).conns c ≠ some (some w) := by
-  have h := hw.inv
-  obtain ⟨r, R, hr, hR, hm⟩ := h.connReg c v hc
+  have h := hw.invS
+  obtain ⟨r, R, hr, hR, hm⟩ := hw.connReg' hc
   rw [slotRemCb_eq, hr]
   simp only []
-  refine ⟨⟨by inv_auto h with [List.Nodup.erase, List.Nodup.mem_erase_iff], ?_, ?_⟩, ?_⟩
+  refine ⟨⟨InvS.inv (by invs_auto h with [List.Nodup.erase, List.Nodup.mem_erase_iff]), ?_, ?_⟩, ?_⟩
   · have := hw.idle; unfold Idle at *; st_simp; exact this
   · have := hw.held; unfold Held at *; st_simp; grind
   · intro w; simp [conns_setConn]
